@@ -191,7 +191,7 @@ int main(int argc, char **argv) {
     if (strcmp(VF.prop, "C19")) { fprintf(stderr, "h_string: unsupported property %s\n", VF.prop); return 2; }
     int L = (int)vf_arg_long("maxlen", 5);
     long base = 0, n;
-    n = enumerate(" \t\r\na\x80", L, t_trims, base, "trims"); vf_count("exhaustive_strings_trims", vf_mine(base) ? n : 0); base += 100000000;
+    n = enumerate(" \t\r\na\x80\v\f", L, t_trims, base, "trims");      /* VT and FF are NOT blanks for the trims: isspace() would strip them */ vf_count("exhaustive_strings_trims", vf_mine(base) ? n : 0); base += 100000000;
     n = enumerate("aB\":z\xff ", L > 6 ? 6 : L, t_misc, base, "misc"); base += 100000000;
     n = enumerate("aB \x80", L > 6 ? 6 : L, t_copy, base, "copy"); base += 100000000;
     n = enumerate("a\r\n b", L > 6 ? 6 : L, t_gets, base, "gets"); base += 100000000;
@@ -215,7 +215,7 @@ int main(int argc, char **argv) {
         if (!vf_mine(base + i)) continue;
         rng_seed(&R, VF.seed, (uint64_t)(base + i)); vf_case_begin(base + i, "random long input");
         size_t len = 8 + rng_below(&R, rng_chance(&R, 1, 10) ? 2040 : 50); char *s = hm_alloc(len + 1);
-        static const char AL[] = " \t\r\naB\":,;xyz\x80\xff";
+        static const char AL[] = " \t\r\naB\":,;xyz\x80\xff\v\f\x01\x7f\xa0";
         for (size_t k = 0; k < len; k++) s[k] = AL[rng_below(&R, sizeof AL - 1)]; s[len] = 0;
         t_trims(s); t_misc(s);
         if (len <= 60) { t_gets(s); t_copy(s); }
